@@ -227,6 +227,22 @@ class Property(object):
     """ How many fresh S seeds each corpus workload gets besides S=[]. """
     return 3
 
+  def corpus_replays(self):
+    """ Directed (workload, explicit schedule) pairs kept under
+    sim/corpus/<ID>-*.json: the minimised replay of a violation that was
+    once found by search and is hard to find again (a narrow interleaving).
+    Run right after the corpus; on a tree where the defect is repaired the
+    same schedule simply passes. """
+    out = []
+    d = os.path.join(os.path.dirname(os.path.abspath(__file__)), "corpus")
+    if os.path.isdir(d):
+      for name in sorted(os.listdir(d)):
+        if name.startswith(self.id + "-") and name.endswith(".json"):
+          with open(os.path.join(d, name)) as fh:
+            doc = json.load(fh)
+          out.append((name, doc["workload"], doc["S"]))
+    return out
+
 
 def import_repo():
   """ Import audiolazy from /repo's working tree, fresh, and assert it. """
@@ -634,6 +650,19 @@ def run_corpus(prop, stats, known, base_seed, keep_digest=False):
       n += 1
       if stats.violations:
         return
+  for ri, (name, workload, s_list) in enumerate(prop.corpus_replays()):
+    try:
+      res = run_explicit(prop, workload, s_list=list(s_list))
+    except HarnessError:
+      raise
+    except BaseException:
+      raise HarnessError("corpus replay %s crashed in the harness:\n%s"
+                         % (name, traceback.format_exc()))
+    _account(stats, prop, known, workload, res, ["corpus-replay", ri, 0],
+             keep_digest)
+    stats.counters["corpus_replays"] += 1
+    if stats.violations:
+      return
 
 
 def run_check(prop_name, tier, base_seed, workers=None, max_runs=None,
